@@ -84,6 +84,11 @@ func (it *interp) execBinOp(d *disjunct, f frameID, x *ssa.BinOp) rep {
 		}
 		return rep{kind: kInt, lin: res}
 	case token.QUO:
+		if c, ok := b.ConstVal(); ok && c > 0 {
+			if q, ok := a.DivExact(c); ok && wide {
+				return exact(q) // a is a multiple of c term by term: (4*x)/4 = x
+			}
+		}
 		if c, ok := b.ConstVal(); ok && c > 0 && nonneg(a) {
 			// c*q <= a <= c*q + c - 1
 			d.addFact(lin.LE(res.Scale(c), a))
@@ -158,6 +163,11 @@ func (it *interp) execBinOp(d *disjunct, f frameID, x *ssa.BinOp) rep {
 		}
 		return rep{kind: kInt, lin: res}
 	case token.SHR:
+		if c, ok := b.ConstVal(); ok && c >= 0 && c < 62 && wide {
+			if q, ok := a.DivExact(int64(1) << uint(c)); ok {
+				return exact(q)
+			}
+		}
 		if c, ok := b.ConstVal(); ok && c >= 0 && c < 62 && nonneg(a) {
 			p := int64(1) << uint(c)
 			d.addFact(lin.LE(res.Scale(p), a))
